@@ -48,13 +48,14 @@ type checker struct {
 	run    *vk.Run
 	b      *binding
 	shapes []Shape
-	canon  map[[2]string]*Case // (clause, site) -> canonical minimal case (nil: none among single deviations)
+	scan1  *scan // all shapes x (baseline + single deviations)
+	scan2  *scan // all shapes x sibling slice of deviation pairs
 	bases  map[Shape]map[string]any
 	single map[Shape][]Deviation
 	// classes already offered to run.Sample (building a sample is not free)
 	sampled map[string]bool
 	// violations already built for a (clause, site) whose canonical case exists
-	reported map[[2]string]*vk.Violation
+	reported map[[3]string]*vk.Violation
 }
 
 func (c *checker) base(p *planned) (map[string]any, []Deviation) {
@@ -108,52 +109,96 @@ func hasVerdict(vs []verdict, clause, site string) *verdict {
 	return nil
 }
 
-// canonical finds the first case, in the canonical simplest-first order over ALL
-// shapes and single deviations (independent of tier and shard), that fails the
-// same clause at the same site. This is the shrunk representative: thousands of
-// failing inputs of one defect collapse onto it.
-func (c *checker) canonical(clause, site string) *Case {
-	key := [2]string{clause, site}
-	if cs, ok := c.canon[key]; ok {
+// scan is an incremental, indexed pass over a canonically ordered case space
+// (independent of tier and shard). It records the FIRST case of every
+// (clause, site) it meets, so that however many sites ask, the space is walked
+// at most once per shard.
+type scan struct {
+	cases func(s Shape, sg []Deviation) [][]Deviation
+	si    int // next shape
+	ci    int // next case within that shape
+	index map[[2]string]*Case
+}
+
+func singleCases(_ Shape, sg []Deviation) [][]Deviation {
+	out := make([][]Deviation, 0, len(sg)+1)
+	out = append(out, nil) // the baseline
+	for _, d := range sg {
+		out = append(out, []Deviation{d})
+	}
+	return out
+}
+
+// slicePairs: the sibling slice of the two-deviation space (see TestCheck).
+func slicePairs(s Shape, sg []Deviation) [][]Deviation {
+	var out [][]Deviation
+	for _, d1 := range sg {
+		if !d1.underField(s) || !sliceKinds[d1.Kind] {
+			continue
+		}
+		for _, d2 := range sg {
+			if !d2.atSibling(s) || (d2.Kind != "null" && d2.Kind != "number-for-string") {
+				continue
+			}
+			out = append(out, []Deviation{d1, d2})
+		}
+	}
+	return out
+}
+
+func (c *checker) advance(sc *scan, key [2]string) *Case {
+	if cs, ok := sc.index[key]; ok {
 		return cs
 	}
-	var found *Case
-search:
-	for _, s := range c.shapes {
+	for sc.si < len(c.shapes) {
+		s := c.shapes[sc.si]
 		p := c.b.plan(s)
 		if p.err != nil {
+			sc.si, sc.ci = sc.si+1, 0
 			continue
 		}
 		_, sg := c.base(p)
-		for i := -1; i < len(sg); i++ {
-			var devs []Deviation
-			if i >= 0 {
-				devs = []Deviation{sg[i]}
-			}
+		cases := sc.cases(s, sg)
+		for sc.ci < len(cases) {
+			devs := cases[sc.ci]
+			sc.ci++
 			ev, err := c.evaluate(p, devs, false)
 			if err != nil {
 				continue
 			}
-			if hasVerdict(ev.verdicts, clause, site) != nil {
-				found = &Case{Shape: s, Devs: devs}
-				break search
+			for _, v := range ev.verdicts {
+				k := [2]string{v.Clause, v.Site}
+				if _, ok := sc.index[k]; !ok {
+					sc.index[k] = &Case{Shape: s, Devs: devs}
+				}
+			}
+			if cs, ok := sc.index[key]; ok {
+				return cs
 			}
 		}
+		sc.si, sc.ci = sc.si+1, 0
 	}
-	c.canon[key] = found
-	return found
+	return nil
+}
+
+// canonical finds the shrunk representative of a (clause, site): the first case
+// that fails the same clause at the same site in the canonical simplest-first
+// order over ALL shapes x single deviations and, if no single deviation does it,
+// over ALL shapes x the sibling slice of deviation pairs. Thousands of failing
+// inputs of one defect collapse onto it, whatever the tier and the shard.
+func (c *checker) canonical(clause, site string) *Case {
+	key := [2]string{clause, site}
+	if cs := c.advance(c.scan1, key); cs != nil {
+		return cs
+	}
+	return c.advance(c.scan2, key)
 }
 
 func (c *checker) report(orig Case, v verdict) {
-	key := [2]string{v.Clause, v.Site}
-	if viol, ok := c.reported[key]; ok {
-		c.run.Violate(*viol) // same fingerprint: only counted
-		return
-	}
 	cs := c.canonical(v.Clause, v.Site)
 	class := ""
 	if cs == nil {
-		// needs more than one deviation: keep the failing case itself, classified
+		// outside both canonical spaces: keep the failing case itself, classified
 		// without the shape so that the variants of one defect still collapse
 		cs = &orig
 		var parts []string
@@ -161,10 +206,14 @@ func (c *checker) report(orig Case, v verdict) {
 			parts = append(parts, d.Kind+" at "+roleString(d.Path))
 		}
 		class = "needs " + fmt.Sprint(len(orig.Devs)) + " deviations: " + strings.Join(parts, " + ")
-		c.run.Violate(vk.Violation{Clause: v.Clause, Site: v.Site, Class: class, Input: cs, Detail: c.detail(*cs, v.Clause, v.Site, orig)})
+	} else {
+		class = cs.describe()
+	}
+	key := [3]string{v.Clause, v.Site, class}
+	if viol, ok := c.reported[key]; ok {
+		c.run.Violate(*viol) // same fingerprint: only counted
 		return
 	}
-	class = cs.describe()
 	viol := &vk.Violation{Clause: v.Clause, Site: v.Site, Class: class, Input: cs, Detail: c.detail(*cs, v.Clause, v.Site, orig)}
 	c.reported[key] = viol
 	c.run.Violate(*viol)
@@ -229,6 +278,8 @@ func clauseTag(cl string) string {
 		return "errorpath"
 	case clProject:
 		return "projection"
+	case clErrShape:
+		return "errorshape"
 	}
 	return "other"
 }
@@ -337,7 +388,7 @@ func TestCheck(t *testing.T) {
 	if err != nil {
 		t.Fatal(err)
 	}
-	c := &checker{run: run, b: b, shapes: allShapes(maxListDepth), canon: map[[2]string]*Case{}, bases: map[Shape]map[string]any{}, single: map[Shape][]Deviation{}, sampled: map[string]bool{}, reported: map[[2]string]*vk.Violation{}}
+	c := &checker{run: run, b: b, shapes: allShapes(maxListDepth), scan1: &scan{cases: singleCases, index: map[[2]string]*Case{}}, scan2: &scan{cases: slicePairs, index: map[[2]string]*Case{}}, bases: map[Shape]map[string]any{}, single: map[Shape][]Deviation{}, sampled: map[string]bool{}, reported: map[[3]string]*vk.Violation{}}
 
 	if run.Replay != "" {
 		var cs Case
@@ -361,12 +412,14 @@ func TestCheck(t *testing.T) {
 	}
 
 	maxDev := vk.Pick(run, 1, 2)
-	run.Rule("every response shape (10 named types x 14 list/non-null wrappings up to list depth 2 x 5 parent contexts x 2-3 selection variants) is planned by the real planner; for each shape the well-typed baseline payload and every payload with <= max_deviations deviations at pairwise independent positions (every position of the baseline x the whole menu of that position) is rendered by the real Resolvable and judged by R5; distinct = distinct (number and kind of raises, where each was caught relative to the nearest nullable ancestor, data:null, number of errors, failed clauses)")
+	run.Rule("every response shape (12 named types incl. an interface with ONE implementer and a union with ONE member x 14 list/non-null wrappings up to list depth 2 x 5 parent contexts x 2-3 selection variants; the field under test always has a sibling k: String rendered before it and a sibling z: String! rendered after it) is planned by the real planner; for each shape the well-typed baseline payload and every payload with <= max_deviations deviations at pairwise independent positions (every position of the baseline x the whole menu of that position) is rendered by the real Resolvable and judged by R5; the quick tier adds the sibling slice of the two-deviation space: {null, one wrong kind} at every position at or below the field under test x {null, wrong kind} in every instance of k and z; distinct = distinct (number and kind of raises, where each was caught relative to the nearest nullable ancestor, data:null, number of errors, failed clauses)")
 	run.Assume(
 		"the single subgraph's `data` is merged unchanged into the response tree (Init(ctx, payload) == what the loader does for one root fetch) - checked, not trusted: every case is also run through Resolver.ResolveGraphQLResponse with an http.RoundTripper subgraph answering {\"data\":payload} and must give byte-identical output or the same panic (counter cross_checked_with_public_path, seam_difference)",
 		"strictness table: custom scalar accepts any JSON; ID string or integer; Float any number; Int any integral number; Boolean, String, enum exact; an @inaccessible enum value is not a value of the client schema",
 		"latitude (appendix A.4): a null at a non-null position must be caught at the nearest nullable ancestor, an ill-typed value at any nullable ancestor-or-self or by data:null; one error with the path of one caught raise per replacement, extra errors allowed; a __typename problem may be reported at the object or at its __typename key; an integer ID may be rendered as number or string",
 		"not judged beyond valid JSON / top-level keys (counted as not_judged): Int outside 32 bit, non-integral number for ID",
+		"every error path (also of additional errors) must walk the selected response shape: keys under objects, indices under lists within the subgraph's list length, nothing below a leaf; a trailing __typename is accepted under any object",
+		"an abstract position with exactly one possible type (interface with one implementer, union with one member) needs a __typename naming that type, exactly like one with two possible types",
 		"no Apollo compatibility flags, no authorizer, no field renderer, no @defer, no aliases, no arguments",
 	)
 	run.Bound("max_deviations", maxDev)
@@ -375,6 +428,10 @@ func TestCheck(t *testing.T) {
 	run.Bound("named_types", namedTypes)
 	run.Bound("parent_contexts", contexts)
 	run.Bound("shapes", len(c.shapes))
+	run.Bound("siblings", "k: String before, z: String! after the field under test")
+	if maxDev < 2 {
+		run.Bound("quick_sibling_slice", "pairs {null, one wrong kind per node kind} at/below the field under test x {null, number-for-string} at every k and z")
+	}
 
 	var unit int64
 	for _, s := range c.shapes {
@@ -411,6 +468,17 @@ func TestCheck(t *testing.T) {
 			c.runCase(p, Case{Shape: s})
 			for _, d := range sg {
 				c.runCase(p, Case{Shape: s, Devs: []Deviation{d}})
+			}
+			if maxDev < 2 {
+				// quick-tier slice of the two-deviation space: one representative
+				// deviation (null / one wrong kind) at every position at or below the
+				// field under test x {null, wrong kind} in every instance of the
+				// sibling rendered before (k) and after (z) it. An error reported
+				// AFTER an earlier failure was absorbed is only visible this way.
+				for _, pair := range slicePairs(s, sg) {
+					run.Count("quick_sibling_slice_pairs", 1)
+					c.runCase(p, Case{Shape: s, Devs: pair})
+				}
 			}
 		}
 		if maxDev >= 2 {
